@@ -172,7 +172,28 @@ class _LowerIfExp(ast.NodeTransformer):
         return node
 
 
+class _LowerSuppress(ast.NodeTransformer):
+    """`with contextlib.suppress(E1, ...): BODY` is `try: BODY except (E1, ...): pass` (the context manager's documented meaning):
+    rewritten at module load so that error-containment rules see one form.  A no-op on the reference tree."""
+
+    def visit_With(self, node):
+        self.generic_visit(node)
+        if len(node.items) == 1 and node.items[0].optional_vars is None:
+            ce = node.items[0].context_expr
+            if isinstance(ce, ast.Call) and not ce.keywords and ce.args and not any(isinstance(a, ast.Starred) for a in ce.args):
+                f = ce.func
+                name = f.attr if isinstance(f, ast.Attribute) and isinstance(f.value, ast.Name) and f.value.id == "contextlib" else (
+                    f.id if isinstance(f, ast.Name) else None)
+                if name == "suppress":
+                    typ = ce.args[0] if len(ce.args) == 1 else ast.Tuple(elts=list(ce.args), ctx=ast.Load())
+                    h = ast.ExceptHandler(type=typ, name=None, body=[ast.copy_location(ast.Pass(), node)])
+                    new = ast.Try(body=node.body, handlers=[ast.copy_location(h, node)], orelse=[], finalbody=[])
+                    return ast.copy_location(new, node)
+        return node
+
+
 def lower_ifexp(tree):
+    _LowerSuppress().visit(tree)
     _LowerIfExp().visit(tree)
     ast.fix_missing_locations(tree)
     return tree
